@@ -105,6 +105,33 @@ pub fn suite_c19(ctx: &mut Ctx) {
             scripted(ctx, "p32", vec![u << 5, s2 << 30], &mut seen32);
         }
     }
+    // raw extreme words, whatever the mapping from words to draws is: the top and bottom 2^12 words (and a few in the
+    // middle) as first word x four second words
+    for t in ["p8", "p16", "p32"] {
+        let mut seen = std::collections::HashSet::new();
+        let span = ctx.q(1 << 12, 1 << 16) as u32;
+        for i in 0..span {
+            for w1 in [i, u32::MAX - i, 0x8000_0000u32.wrapping_add(i), 0x7fff_ffffu32.wrapping_sub(i)] {
+                let w2 = [0u32, u32::MAX, 0x4000_0000, 0xC000_0000][(i % 4) as usize];
+                scripted(ctx, t, vec![w1, w2], &mut seen);
+            }
+        }
+        // runs of extreme draws: two to six words from the top (bottom) 32 values of the draw range in a row, then an
+        // ordinary word -- a sampler that redraws must keep redrawing
+        // (low bits cleared: rand's range sampler rejects words whose low bits are high -- such a word produces no draw)
+        let sh = match t { "p8" => 26, "p16" => 14, _ => 5 };
+        let top = |j: u32| -> u32 { (u32::MAX - (j << sh)) & !((1u32 << sh) - 1) };
+        for i in 0..32u32 {
+            for j in 0..32u32 {
+                scripted(ctx, t, vec![top(i), top(j), 0x8000_0000], &mut seen);
+                if (i + j) % 8 == 0 {
+                    scripted(ctx, t, vec![top(i), top(j), top(i ^ 5), top(j ^ 3), 0x8000_0000], &mut seen);
+                    scripted(ctx, t, vec![top(i), top(j), top(j), top(i), top(i), top(j), 0x1234_5678], &mut seen);
+                    scripted(ctx, t, vec![!top(i), !top(j), 0x8000_0000], &mut seen);
+                }
+            }
+        }
+    }
     // StdRng streams over many seeds
     for t in ["p8", "p16", "p32"] {
         let mut seen = std::collections::HashSet::new();
